@@ -1,6 +1,8 @@
 """Loops: cut at the sidecar invariant (init / preserve / variant / frame);
 loops over concrete-length sequences are unrolled."""
 import ast
+import os
+import sys
 
 import z3
 
@@ -109,8 +111,18 @@ def frame_obligations(it, snap, lc, label):
     for p in lc.get('havoc', []):
         cell, field = resolve_path(it, p)
         declared.add((id(cell), field))
+    # locals re-created from a declared shape at the loop head are loop
+    # state described by the invariant
+    for name in lc.get('shapes', {}):
+        v = ctx.frame.locals.get(name)
+        if isinstance(v, VRef):
+            declared.add((id(ctx.heap[v.ref]), 'e'))
+            declared.add((id(ctx.heap[v.ref]), 'items'))
+    shaped_refs = set(getattr(ctx, 'shaped_refs', ()))
     for ref, s in snap.items():
         c = ctx.heap[ref]
+        if ref in shaped_refs:
+            continue
         if s[0] == 'stream':
             for field, old, new in (('data', s[1], c.data),
                                     ('pos', s[2], c.pos)):
@@ -175,14 +187,26 @@ def exec_while(it, node):
                    where=where_of(fr.fi, node))
     # 2. havoc
     targets = assigned_names(node.body) | assigned_names(node.orelse)
-    for name in sorted(targets):
-        if name in fr.locals:
+    shapes = lc.get('shapes', {})
+    for name in sorted(targets | set(shapes)):
+        if name in shapes:
+            fr.locals[name] = shapes[name].make(it, name)
+            if isinstance(fr.locals[name], VRef):
+                ctx.shaped_refs = set(getattr(ctx, 'shaped_refs', ())) | {
+                    fr.locals[name].ref}
+        elif name in fr.locals:
             fr.locals[name] = fresh_like(ctx, name, fr.locals[name])
     for p in lc.get('havoc', []):
         cell, field = resolve_path(it, p)
         havoc_cell_field(ctx, cell, field)
+    if lc.get('at_head'):
+        lc['at_head'](it)
     for name, clause in lc['invariant']:
-        ctx.assume(eng.eval_clause(it, clause, {}))
+        f = eng.eval_clause(it, clause, {})
+        if os.environ.get('PYVC_DEBUG') and z3.is_false(z3.simplify(f)):
+            print('invariant clause %s is false at the loop head' % name,
+                  file=sys.stderr)
+        ctx.assume(f)
     snap = snapshot_heap(ctx)
     variant0 = None
     if lc.get('decreases'):
